@@ -22,6 +22,9 @@ Decided:
   R08.g  no strict bytes<->text conversion (``.decode(codec)`` without an errors argument) on the part of the
          request path that no handler covers: the call-graph closure from Application.__call__ through call
          sites not enclosed in a handler catching UnicodeDecodeError (finding F13, DESIGN.md section 5).
+  R08.h  an HTTPException keeps its own status when it is non-breaking: the errors recorded while later routes were
+         tried win over the null route's own 405 / 404 (the sentinel returns a recorded error whenever there is one; its
+         405 and 404 are built only when none was recorded).
 Declined: exceptions raised by other primitive operations outside the protected region (arithmetic,
 indexing, attribute access on werkzeug objects); completeness of werkzeug's response objects.
 """
@@ -281,15 +284,23 @@ def run(rep):
                 continue
             n += 1
             bare = [r for r in raises_of(m) if r.exc is None]
+            # what leaves on purpose: raise statements and calls of functions that raise; each must hand on the *original*
+            # exception -- the one being handled -- not a new object built from it
+            escapes = exception_escapes(repo, m)
+            wrong = [(st_, why) for st_, why in escapes if why is not None]
+            rep.check('R08.c', fkey(m, 'the original exception'), not wrong,
+                      'what a re-raising handler lets out is the exception being handled itself (%d re-raising statement(s))' % len(escapes) if not wrong else
+                      '%s.uncaught_to_response lets out something else than the exception being handled: %s -- the WSGI server / debugger '
+                      'gets a different object (other identity, args and attributes; a TypeError when the type cannot be built from one '
+                      'argument)' % (c.name, '; '.join(why for st_, why in wrong)), err, wrong[0][0] if wrong else m.node)
             if c.name in TABLE:
                 rep.ok('R08.c', fkey(m), 'table entry: ' + TABLE[c.name], err, m.node)
                 continue
-            bad = [r for r in bare if not has_cond(conds(m, r), lambda t: norm(t) == 'self.reraise_uncaught', True)]
-            other = [r for r in raises_of(m) if r.exc is not None]
-            ok = not bad and not other
+            bad = [st_ for st_, why in escapes if not has_cond(conds(m, st_), lambda t: norm(t) == 'self.reraise_uncaught', True)]
+            ok = not bad
             rep.check('R08.c', fkey(m), ok,
                       're-raises only when self.reraise_uncaught is set (%d bare raise)' % len(bare) if ok else
-                      'uncaught_to_response can raise without reraise_uncaught being set', err, (bad or other or [m.node])[0])
+                      'uncaught_to_response can raise without reraise_uncaught being set', err, (bad or [m.node])[0])
             rs = returns_of(m)
             ok = bool(rs) and all(isinstance(r.value, ast.Call) for r in rs)
             mcfg = cfg_of(m)
@@ -341,9 +352,146 @@ def run(rep):
         rep.rule('R08.g', 'no strict bytes<->text conversion on the part of the request path that no handler covers')
         check_total_decoding(rep, 'R08.g', rp)
 
+    def deferred_error_rules():
+        # ---- R08.h -----------------------------------------------------------
+        rep.rule('R08.h', 'a non-breaking HTTPException that was raised / returned and recorded is the answer when no later route gives '
+                          'one: the null route returns a recorded error before it considers its own 405 / 404')
+        from .c06 import check_sentinel_priority
+        check_sentinel_priority(rep, 'R08.h', repo, app, route, most_recent=False)
+
     # each group is analysed on its own: a construct one group cannot follow does not hide the verdicts of the others
-    for group in (dispatch_rules, reraise_rules, store_rules, serialiser_rules, converter_rules, decoding_rules):
+    for group in (dispatch_rules, reraise_rules, store_rules, serialiser_rules, converter_rules, decoding_rules, deferred_error_rules):
         run_group(rep, group)
+
+
+# ---------------------------------------------------------------------------------------------- R08.c: what a re-raise lets out
+_KNOWN_RERAISERS = {'six.reraise': 1, 'future.utils.raise_': 1}       # external helpers raising their argument number <n> as it is
+
+
+def _exc_info_part(e):
+    """``sys.exc_info()[i]`` -> i; the call itself -> 'all'; else None"""
+    def is_call(c):
+        return isinstance(c, ast.Call) and not c.args and not c.keywords and norm(c.func) in ('sys.exc_info', 'exc_info')
+    if is_call(e):
+        return 'all'
+    if isinstance(e, ast.Subscript) and is_call(e.value) and isinstance(e.slice, ast.Constant) and e.slice.value in (0, 1, 2):
+        return e.slice.value
+    return None
+
+
+def _exc_role(fi, e, roles, depth=0):
+    """What expression ``e`` of function ``fi`` denotes: 'value' -- the exception being handled itself; 'type' / 'tb' -- its
+    type / traceback; None -- anything else (in particular a newly built object).  ``roles``: parameter name -> role."""
+    from ..astutil import assigned_value
+    if depth > 5:
+        return None
+    if isinstance(e, ast.Call) and isinstance(e.func, ast.Attribute) and e.func.attr == 'with_traceback' and len(e.args) == 1 and not e.keywords:
+        return 'value' if _exc_role(fi, e.func.value, roles, depth + 1) == 'value' else None      # returns the exception itself
+    part = _exc_info_part(e)
+    if part in (0, 1, 2):
+        return ('type', 'value', 'tb')[part]
+    if isinstance(e, ast.Name):
+        av = assigned_value(fi.node, e.id)
+        stored = any(isinstance(n, ast.Name) and n.id == e.id and isinstance(n.ctx, (ast.Store, ast.Del)) for n in walk_body(fi.node))
+        if e.id in roles and not stored:
+            return roles[e.id]
+        if e.id == '_error' and e.id in fi.params() and not stored:
+            return 'value'            # the keyword dispatch passes the exception under
+        if len(av) == 1 and isinstance(av[0][0], ast.Assign) and e.id not in fi.params():
+            st, val, idx = av[0]
+            if idx is None:
+                return _exc_role(fi, val, roles, depth + 1)
+            if isinstance(idx, int) and _exc_info_part(val) == 'all' and idx in (0, 1, 2):
+                return ('type', 'value', 'tb')[idx]           # ``tp, value, tb = sys.exc_info()``
+            if isinstance(idx, int) and isinstance(val, (ast.Tuple, ast.List)) and idx < len(val.elts) and \
+                    not any(isinstance(x, ast.Starred) for x in val.elts):
+                return _exc_role(fi, val.elts[idx], roles, depth + 1)
+        return None
+    kw = fi.node.args.kwarg.arg if fi.node.args.kwarg is not None else None
+    if kw is not None:
+        if isinstance(e, ast.Subscript) and norm(e.value) == kw and isinstance(e.slice, ast.Constant) and e.slice.value == '_error':
+            return 'value'
+        if isinstance(e, ast.Call) and norm(e.func) in ('%s.get' % kw, '%s.pop' % kw) and len(e.args) == 1 and \
+                isinstance(e.args[0], ast.Constant) and e.args[0].value == '_error':
+            return 'value'
+    if isinstance(e, ast.Call) and isinstance(e.func, ast.Name) and e.func.id == 'type' and len(e.args) == 1 and not e.keywords:
+        return 'type' if _exc_role(fi, e.args[0], roles, depth + 1) == 'value' else None
+    if isinstance(e, ast.Attribute) and e.attr in ('__class__', '__traceback__'):
+        return {'__class__': 'type', '__traceback__': 'tb'}[e.attr] if _exc_role(fi, e.value, roles, depth + 1) == 'value' else None
+    return None
+
+
+def _raise_lets_out(fi, r, roles):
+    """None when raise statement ``r`` of ``fi`` re-raises the exception being handled (bare ``raise``, or ``raise <that
+    exception>`` -- also through ``.with_traceback(..)``); else a text saying what it raises"""
+    if r.exc is None:
+        return None
+    if _exc_role(fi, r.exc, roles) == 'value':
+        return None
+    return '%s raises %s' % (fi.qualname, short(r.exc, 60))
+
+
+def exception_escapes(repo, m):
+    """[(statement of ``m``, None | what is wrong)] for every statement of ``m`` (an ``uncaught_to_response``) through which an
+    exception leaves on purpose: its own ``raise`` statements, and calls of functions of the tree (or known external
+    re-raisers) that raise -- followed one level, the exception's parts matched to the callee's parameters by position,
+    keyword and ``*sys.exc_info()``."""
+    out = []
+    for r in raises_of(m):
+        if protected_by(m, r, 'Exception') is None:
+            out.append((r, _raise_lets_out(m, r, {})))
+    for c in walk_body(m.node):
+        if not isinstance(c, ast.Call):
+            continue
+        callee, known = None, None
+        f = c.func
+        if isinstance(f, ast.Name):
+            kind, mod2, obj = repo.resolve(m.mod, f.id)
+            if kind == 'func' and mod2 is not None and not mod2.external:
+                callee = obj
+            elif kind == 'external' and obj in _KNOWN_RERAISERS:
+                known = _KNOWN_RERAISERS[obj]
+        elif isinstance(f, ast.Attribute) and isinstance(f.value, ast.Name):
+            if f.value.id in ('self', 'cls') and m.cls is not None:
+                callee = repo.find_method(m.cls, f.attr)
+                if callee is not None and callee.mod.external:
+                    callee = None
+            else:
+                kind, mod2, obj = repo.resolve(m.mod, f.value.id)
+                if kind == 'module':
+                    dotted = '%s.%s' % (obj, f.attr)
+                    if dotted in _KNOWN_RERAISERS:
+                        known = _KNOWN_RERAISERS[dotted]
+                    elif mod2 is not None and not mod2.external and f.attr in mod2.functions:
+                        callee = mod2.functions[f.attr]
+        if callee is None and known is None:
+            continue
+        # the roles of the arguments, in order
+        pos = []
+        for a in c.args:
+            if isinstance(a, ast.Starred):
+                pos.extend(['type', 'value', 'tb'] if _exc_info_part(a.value) == 'all' else [None, None, None, None])
+            else:
+                pos.append(_exc_role(m, a, {}))
+        st = stmt_of(m.mod, c)
+        if known is not None:
+            ok = len(pos) > known and pos[known] == 'value'
+            out.append((st, None if ok else '%s is not given the exception being handled' % norm(f)))
+            continue
+        rz = [r for r in raises_of(callee) if protected_by(callee, r, 'Exception') is None]
+        if not rz:
+            continue
+        ps = callee.params()
+        if callee.cls is not None and not any(isinstance(d, ast.Name) and d.id == 'staticmethod' for d in callee.node.decorator_list):
+            ps = ps[1:]
+        roles = dict(zip(ps, pos))
+        for k in c.keywords:
+            if k.arg is not None:
+                roles[k.arg] = _exc_role(m, k.value, {})
+        roles = dict((k, v) for k, v in roles.items() if v is not None)
+        whys = [w for w in (_raise_lets_out(callee, r, roles) for r in rz) if w is not None]
+        out.append((st, '; '.join(whys) if whys else None))
+    return out
 
 
 # ---------------------------------------------------------------------------------------------- R08.e: total JSON encoding
